@@ -222,12 +222,15 @@ EXTRACT_SHEETS = {
              'F3': '=IF(total>20,RATE,-1)', 'G1': '=SUM(block)+$A$1', 'G2': '=SUM(Data!B1:B3)', 'G3': '=F2+G1+E1', 'H1': '=Data!C1+A1', 'H2': '=Z9+A1',
              # range members that are zero / FALSE / 0.0 are values, not blanks
              'J1': 0, 'J2': 4, 'J3': 8, 'K1': False, 'K2': 0.0, 'K3': True, 'I1': '=AVERAGE(J1:J4)', 'I2': '=COUNT(J1:J4)+COUNTA(K1:K4)', 'I3': '=AND(K1:K3)',
-             'I4': '=MIN(J1:J3)+COUNT(K2:K2)'},
+             'I4': '=MIN(J1:J3)+COUNT(K2:K2)',
+             # cells of another sheet that the workbook does not store are blanks in both models
+             'H3': '=A1+Other!C5', 'H4': '=IF(Other!D4=0,A2,A1)', 'H5': '=H3*10', 'H6': "=SUM(Other!E7:F8)+A1"},
+    'Other': {'B1': 0.5},
     'Data': {'B1': 4, 'B2': 6, 'B3': 11, 'C1': '=B1*B2', 'C2': '=SUM(B1:B3)'},
 }
 EXTRACT_NAMES = {'rate': 'Data!$B$2', 'total': 'Data!$C$2', 'block': 'Data!$B$1:$B$3'}
 EXTRACT_FOCI = [['Calc!E1'], ['Calc!F1'], ['Calc!F2'], ['Calc!F3'], ['Calc!G1'], ['Calc!G3'], ['Calc!H1', 'Calc!H2'], ['rate', 'Calc!G2'], ['Calc!C1', 'total'],
-                ['Calc!I1', 'Calc!I2'], ['Calc!I3', 'Calc!I4']]
+                ['Calc!I1', 'Calc!I2'], ['Calc!I3', 'Calc!I4'], ['Calc!H3'], ['Calc!H4', 'Calc!H5'], ['Calc!H6']]
 EXTRACT_EDITS = [('Calc!A1', 5), ('Data!B2', 60), ('Data!B1', -4), ('Calc!J2', 0)]
 
 
@@ -240,7 +243,7 @@ def rule_7(ctx):
     from . import scenarios as S
     anchor = ctx.mod('model').func('ModelCompiler.extract')
     n = 0
-    foci = EXTRACT_FOCI if ctx.tier != 'quick' else EXTRACT_FOCI[:9:2] + [EXTRACT_FOCI[3], EXTRACT_FOCI[5]] + EXTRACT_FOCI[9:]
+    foci = EXTRACT_FOCI if ctx.tier != 'quick' else EXTRACT_FOCI[:9:2] + [EXTRACT_FOCI[3]] + EXTRACT_FOCI[9:]
     for focus in foci:
         full = W.Workbook(ctx, sheets=EXTRACT_SHEETS, names=EXTRACT_NAMES)
         before = S.constants_snapshot(full)
@@ -263,7 +266,28 @@ def rule_7(ctx):
                 ctx.expect(S.same(vf, vs), anchor, f'focus {focus}: {a} after {trail}',
                            f'{a} is {vf!r} in the full model and {vs!r} in the model extracted for {focus} (after {trail}): the extracted model '
                            'must hold everything the focus depends on - cells, ranges, names, however they are spelt in the formulas')
-    ctx.floor(40, 'extracted-model evaluations')
+    # the usual life of a model before it is extracted from: edited and calculated several times; then the same edit on both
+    # models before the extracted one has calculated anything
+    for focus in (['Calc!G1'], ['rate', 'Calc!G2'], ['Calc!I1', 'Calc!I2'], ['Calc!D1', 'Calc!E1']):
+        for pre in (1, 2):
+            full = W.Workbook(ctx, sheets=EXTRACT_SHEETS, names=EXTRACT_NAMES)
+            for step in EXTRACT_EDITS[:pre]:
+                full.set(step[0], step[1])
+                for a in focus:
+                    full.value(a)
+            sub = full.extracted(focus)
+            later = [('Data!B3', 110), ('Calc!J1', 6), ('Calc!A2', -7)]
+            trail = f'{pre} edit(s) and calculations before the extraction'
+            for step in later:
+                full.set(step[0], step[1])
+                sub.set(step[0], step[1])
+                trail = f'{trail}; {step[0]}={step[1]} on both'
+                for a in focus:
+                    vf, vs = full.value(a), sub.value(a)
+                    n += 1
+                    ctx.expect(S.same(vf, vs), anchor, f'focus {focus}: {a} after {trail}',
+                               f'{a} is {vf!r} in the full model and {vs!r} in the model extracted for {focus} (after {trail})')
+    ctx.floor(60, 'extracted-model evaluations')
 
 
 RULES = [
